@@ -253,6 +253,14 @@ func WithPrelude(r *simrt.RNG, s string, k int) (string, bool) {
 	return Preludes[r.Intn(len(Preludes))] + s, true
 }
 
+// paramTypes are type expressions of header params: complete, nested, and stopping right after
+// an opening or separating token.
+var paramTypes = []string{
+	"string", "int", "?", "any", "list<string>", "map<string, int>", "list<map<string, list<int>>>", "[name: string, age: int]", "int|string", "string|null",
+	"list<", "map<string,", "map<", "[name:", "[", "int|", "list<>", "map<,>", "list<list<", "[:]", "|", "<", ">", ",", "list<string", "[name: string", " ",
+	"a.b.Type", "string = 'x'", "int = 1", "list<int> = [1, 2]",
+}
+
 // msgAtoms are pieces of a message body.
 var msgAtoms = []string{
 	"Hello ", "world", " ", "{$x}", "{$x.y}", "{$x|escapeUri}", "{print $y}", "<b>", "</b>", "<a href=\"{$x}\">", "</a>", "<br/>", "<img src=\"s\"/>",
@@ -283,6 +291,12 @@ func Skeleton(r *simrt.RNG) string {
 		fmt.Fprintf(&sb, "{template .%s}\n", []string{"t", "u", "a", "b"}[r.Intn(4)])
 		if r.Intn(3) == 0 {
 			sb.WriteString("{@param xs: list<int>}\n")
+		}
+		if r.Intn(4) == 0 {
+			// header params whose types are well formed, odd or cut short
+			for k, nk := 0, 1+r.Intn(2); k < nk; k++ {
+				sb.WriteString("{@param" + []string{"", "?"}[r.Intn(2)] + " p" + fmt.Sprint(k) + ": " + paramTypes[r.Intn(len(paramTypes))] + "}\n")
+			}
 		}
 		for i, n := 0, r.Intn(6); i < n; i++ {
 			if r.Intn(3) == 0 {
